@@ -263,7 +263,9 @@ CHECKS["C11"] = dict(
          "suffice only without shear coupling; refuted otherwise), weights and height as in the model, and force/stiffness are "
          "recomputed after every converged solve.  Tied to the code by central difference quotients of the axial force from "
          "trial solves out of the same state, against the returned stiffness: all 20 shipped deformation variants and "
-         "synthetic elastic tubes, 1D/2D/3D, pressure on/off, two-step histories, three displacement levels per step.",
+         "synthetic elastic tubes, 1D/2D/3D, pressure on/off, two-step histories, three displacement levels per step; for the 1D "
+         "histories (any material) the stored stresses of every step are certified in exact arithmetic to balance the pressure "
+         "in the axisymmetric finite-element model and to integrate to the reported force.",
     note="partial: that the nonlinear finite-element force has the condensed tangent as its derivative (consistent NEML "
          "tangents, converged Newton state) is checked by difference quotients at 2e-3 relative accuracy, not proved.  Known "
          "finding: steps cut into sub-increments of an inelastic material report the last sub-increment's tangent.",
